@@ -27,7 +27,7 @@ def configs(tier):
     for p in P:
         for md in (0, 1):
             out.append(dict(Kind="patience", Patience=p, MinDelta=md, Epochs=0, Alphabet=ALPHABET, MaxLen=maxlen))
-    for e in (1, 2, 3, 4):
+    for e in (0, 1, 2, 3, 4):          # 0: the condition is already met before the first epoch
         out.append(dict(Kind="epochs", Patience=0, MinDelta=0, Epochs=e, Alphabet={1, 2}, MaxLen=5))
     return out
 
@@ -70,8 +70,13 @@ def replay_config(args):
                        "epochs": consts["Epochs"], "hist": list(h)}
                 try:
                     r0 = cond.stop(models[0], 0, None, None, 0.0)
-                    if r0:
-                        fails.append({"key": dict(key, what="stopped before the first epoch", at=0)})
+                    st0 = exp.get((), (False, 0))[0]            # TRUE only for EpochStop(0)
+                    if bool(r0) != st0:
+                        fails.append({"key": dict(key, what="stopped before the first epoch" if r0 else "EpochStop(0) did not stop before the first epoch", at=0)})
+                        continue
+                    if st0:
+                        if cond.best_model is not models[0]:
+                            fails.append({"key": dict(key, what="best_model is not the model handed in", at=0)})
                         continue
                     for i, l in enumerate(h, 1):
                         decoy = (100 - i) if hi % 2 == 0 else (100 + i)   # the non-monitored quantity must be ignored
@@ -171,6 +176,9 @@ def make_train_specs(rng, by_cfg, n):
     # one longer EpochStop run that crosses the every-10-epochs `save_model` branch of ml.train
     specs.append(dict(kind="epochs", monitor="train", patience=0, mindelta=0, epochs=11, hist=[3] * 11, fill=3, vhist=[3] * 11, vfill=3,
                       extra=1, L=4, B=2, hasval=False, LV=2, save=True))
+    # the boundary count: EpochStop(0) must stop BEFORE the first epoch and hand back the model it was given
+    specs.append(dict(kind="epochs", monitor="train", patience=0, mindelta=0, epochs=0, hist=[3], fill=3, vhist=[3], vfill=3,
+                      extra=1, L=4, B=2, hasval=False, LV=2))
     for s in specs:
         if s["LV"] < s["B"]:
             s["LV"] = s["B"]
@@ -208,7 +216,8 @@ def main(tier):
                  constants=c, coverage=True, workers=2, timeout=1200) for c in cfgs]
     by_cfg = []
     for c, r in zip(cfgs, tlc.run_many(jobs, parallel=8)):
-        chk.add_tlc(r, vacuity_actions=("Next",))
+        # EpochStop(0) is stopped in its initial state: no Observe step is ever enabled there, by design
+        chk.add_tlc(r, vacuity_actions=() if (c["Kind"] == "epochs" and c["Epochs"] == 0) else ("Next",))
         if not r.ok:
             chk.spec_violation(r, "operational and declarative stopping rules disagree in the specification")
         by_cfg.append((c, r.cases))
